@@ -741,6 +741,21 @@ func init() {
 		lf.nat("cooldownTimeMask", wgMaskIn(pc, "CooldownTimeOf"))
 		lf.nat("posttimesMask", wgMaskIn(pc, "PosttimesOf"))
 
+		// ---- the friend list of a board (cache.HbflReload / IsHiddenBoardFriend) ----
+		lf.raw("\n/-! the board friend list in shared memory: capacity, expiry (seconds), and whether HbflReload builds the new\n" +
+			"   list in a zeroed local array that it copies over the WHOLE shared-memory row (so nothing of the old list survives) -/\n")
+		lf.nat("MAX_FRIEND", constInt(pt, "MAX_FRIEND"))
+		{
+			e := varInit(pt, "HBFLexpire")
+			tv, ok := pt.TypesInfo.Types[e]
+			if !ok || tv.Value == nil {
+				fatal("ptttype.HBFLexpire: no constant initialiser")
+			}
+			lf.nat("HBFLexpire", constant.ToInt(tv.Value).ExactString())
+		}
+		lf.raw(fmt.Sprintf("def hbflReloadReplacesRow : Bool := %v\n", wgHbflReplaces(pc)))
+		lf.raw("/-- HbflReload returns right after a failed os.Open of the list file (the row is then left as it was) -/\n")
+		lf.raw(fmt.Sprintf("def hbflMissingFileKeepsRow : Bool := %v\n", wgHbflOpenFailureReturns(pc)))
 		lf.raw("\n/-- ptt.NewPost hands its own user, uid, boardID and bid to DoPostArticle and does nothing else. -/\n")
 		lf.raw(fmt.Sprintf("def newPostDelegates : Bool := %v\n", wgDelegates(p, "NewPost", "DoPostArticle")))
 		lf.raw(fmt.Sprintf("def checkPostPerm2IsPostpermMsg : Bool := %v\n",
@@ -767,4 +782,92 @@ func wgDelegatesAny(p *packages.Package, from, to string) bool {
 	}
 	call, ok := r.Results[0].(*ast.CallExpr)
 	return ok && wgCallee(call) == to
+}
+
+// wgHbflReplaces: cache.HbflReload declares a local `x := [N]T{}` (array type, no elements) and ends by
+// `copy(Shm.Shm.Hbfl[…][:], x[:])`, and never writes Shm.Shm.Hbfl[…] in any other way.
+func wgHbflReplaces(pc *packages.Package) bool {
+	fd := wgFunc(pc, "HbflReload")
+	var local types.Object
+	copies, otherWrites := 0, 0
+	isHbflRow := func(e ast.Expr) bool {
+		// Shm.Shm.Hbfl[i] possibly sliced / indexed further
+		found := false
+		ast.Inspect(e, func(n ast.Node) bool {
+			if s, ok := n.(*ast.SelectorExpr); ok && s.Sel.Name == "Hbfl" {
+				found = true
+			}
+			return true
+		})
+		return found
+	}
+	ast.Inspect(fd.Body, func(n ast.Node) bool {
+		switch x := n.(type) {
+		case *ast.AssignStmt:
+			for i, l := range x.Lhs {
+				if isHbflRow(l) {
+					otherWrites++
+				}
+				if x.Tok == token.DEFINE && i < len(x.Rhs) {
+					if cl, ok := ast.Unparen(x.Rhs[i]).(*ast.CompositeLit); ok && len(cl.Elts) == 0 {
+						if t := pc.TypesInfo.TypeOf(cl); t != nil {
+							if _, ok := t.Underlying().(*types.Array); ok {
+								if id, ok := l.(*ast.Ident); ok {
+									local = pc.TypesInfo.Defs[id]
+								}
+							}
+						}
+					}
+					// an alias of the shared row (`x := &Shm.Shm.Hbfl[i]`) makes every later x[k] = … a write to it
+					if isHbflRow(x.Rhs[i]) {
+						otherWrites++
+					}
+				}
+			}
+		case *ast.CallExpr:
+			if id, ok := x.Fun.(*ast.Ident); ok && id.Name == "copy" && len(x.Args) == 2 && isHbflRow(x.Args[0]) {
+				if sl, ok := ast.Unparen(x.Args[1]).(*ast.SliceExpr); ok && sl.Low == nil && sl.High == nil {
+					if id2, ok := ast.Unparen(sl.X).(*ast.Ident); ok && local != nil && pc.TypesInfo.Uses[id2] == local {
+						if dsl, ok := ast.Unparen(x.Args[0]).(*ast.SliceExpr); ok && dsl.Low == nil && dsl.High == nil {
+							copies++
+						}
+					}
+				}
+			}
+		}
+		return true
+	})
+	return local != nil && copies == 1 && otherWrites == 0
+}
+
+// wgHbflOpenFailureReturns: in cache.HbflReload the statement after `…, err := os.Open(…)` is
+// `if err != nil { …return }`.
+func wgHbflOpenFailureReturns(pc *packages.Package) bool {
+	fd := wgFunc(pc, "HbflReload")
+	for i, st := range fd.Body.List {
+		as, ok := st.(*ast.AssignStmt)
+		if !ok || len(as.Rhs) != 1 {
+			continue
+		}
+		call, ok := as.Rhs[0].(*ast.CallExpr)
+		if !ok || wgCallee(call) != "Open" || i+1 >= len(fd.Body.List) {
+			continue
+		}
+		is, ok := fd.Body.List[i+1].(*ast.IfStmt)
+		if !ok {
+			return false
+		}
+		b, ok := ast.Unparen(is.Cond).(*ast.BinaryExpr)
+		if !ok || b.Op != token.NEQ || types.ExprString(b.X) != "err" || types.ExprString(b.Y) != "nil" {
+			return false
+		}
+		for _, s2 := range is.Body.List {
+			if _, ok := s2.(*ast.ReturnStmt); ok {
+				return true
+			}
+		}
+		return false
+	}
+	fatal("cache.HbflReload: no os.Open of the list file found")
+	return false
 }
